@@ -188,4 +188,73 @@ theorem sim_grun (n : Int) (msg : String) (ops : List Op) : ∀ d : digest F BO,
     simp only [grun, sim_gstep hs, ih]
 
 end
+
+/-! ### hypotheses at the level of the abstract element type, and the ℕ-level parameters they induce -/
+
+/-- what is assumed of the parameters of the generated defs over an ABSTRACT element type F whose elements are read as reduced
+residues through `val` (for F = the Montgomery-form `fr.Element`: `val` = the canonical representative) -/
+structure ParamsOKF (P : Params) (val : F → Nat) (bo : BO) (X : Prims F BO) : Prop where
+  size_pos : 0 < P.size
+  q_pos : 0 < P.q
+  blockSize : X.BS = (P.size : Int)
+  dflt : val default = 0
+  val_lt : ∀ x, val x < P.q
+  zero : val X.fZero = 0
+  add : ∀ a b, val (X.fAdd a b) = (val a + val b) % P.q
+  enc : ∀ k m, val (X.encrypt k m) = MiMC.encrypt P (val k) (val m)
+  dec_ok : ∀ blk, blk.length = P.size → decBlock P blk < P.q →
+    val (X.boElement bo blk).1 = decBlock P blk ∧ (X.boElement bo blk).2 = Err.nil
+  dec_err : ∀ blk, blk.length = P.size → ¬ decBlock P blk < P.q → (X.boElement bo blk).2 ≠ Err.nil
+  bytes : ∀ x, X.fBytes x = encBE P.size (val x)
+  set_ok : ∀ z buf, buf.length = P.size → beToNat buf < P.q →
+    val (X.fSet z buf).1 = beToNat buf ∧ (X.fSet z buf).2 = Err.nil
+  set_err : ∀ z buf, ¬ (buf.length = P.size ∧ beToNat buf < P.q) → (X.fSet z buf).1 = z ∧ (X.fSet z buf).2 ≠ Err.nil
+
+/-- the ℕ-level parameters induced by F-level ones -/
+def natPrims (P : Params) (val : F → Nat) (X : Prims F BO) : Prims Nat BO where
+  fZero := 0
+  fAdd a b := (a + b) % P.q
+  encrypt := MiMC.encrypt P
+  boElement bo blk := (val (X.boElement bo blk).1, (X.boElement bo blk).2)
+  fBytes := encBE P.size
+  fSet z buf := if buf.length = P.size ∧ beToNat buf < P.q then (beToNat buf, Err.nil)
+    else (z, Err.sentinel "invalid fr.Element encoding")
+  frHash a b n := ((X.frHash a b n).1.map val, (X.frHash a b n).2)
+  frBE := X.frBE
+  BS := X.BS
+
+theorem natPrims_sim {P : Params} {val : F → Nat} {bo : BO} {X : Prims F BO} (h : ParamsOKF P val bo X) :
+    Sim val X (natPrims P val X) where
+  dflt := h.dflt
+  zero := h.zero
+  add := h.add
+  enc := h.enc
+  dec _ _ := rfl
+  bytes := h.bytes
+  set z buf := by
+    by_cases hc : buf.length = P.size ∧ beToNat buf < P.q
+    · obtain ⟨h1, h2⟩ := h.set_ok z buf hc.1 hc.2
+      simp [natPrims, hc, h1, h2]
+    · obtain ⟨h1, h2⟩ := h.set_err z buf hc
+      simp [natPrims, hc, h1, h2]
+  hash _ _ _ := rfl
+  be := rfl
+  bs := rfl
+
+theorem natPrims_ok {P : Params} {val : F → Nat} {bo : BO} {X : Prims F BO} (h : ParamsOKF P val bo X) :
+    OK P bo (natPrims P val X) where
+  size_pos := h.size_pos
+  q_pos := h.q_pos
+  blockSize := h.blockSize
+  zero := rfl
+  add _ _ := rfl
+  enc _ _ := rfl
+  dec_ok blk hl hv := by
+    obtain ⟨h1, h2⟩ := h.dec_ok blk hl hv
+    simp [natPrims, h1, h2]
+  dec_err blk hl hv := by simpa [natPrims] using h.dec_err blk hl hv
+  bytes _ _ := rfl
+  set_ok z buf hl hv := by simp [natPrims, hl, hv]
+  set_err z buf hl hv := by simp [natPrims, hl, hv]
+
 end GV.MiMC.DigestGen
